@@ -44,7 +44,14 @@ def run_property(pid: str, tier: str, seed: int, repo: Repo | None = None) -> Ct
         raise AnalysisError(f"no check implemented for {pid}")
     repo = repo or Repo()
     ctx = Ctx(pid, repo, tier, seed)
-    mod.run(ctx)
+    try:
+        mod.run(ctx)
+    except AnalysisError as error:
+        ctx.deferred.append(str(error))
+    if ctx.deferred and all(i.ok for i in ctx.instances):
+        raise AnalysisError("; ".join(ctx.deferred[:3]))
+    for d in ctx.deferred:
+        ctx.note(f"analysis of one rule was not possible (reported violations take precedence): {d}")
     minimum = getattr(mod, "MIN_INSTANCES", 1)
     if len(ctx.instances) < minimum and all(i.ok for i in ctx.instances):
         raise AnalysisError(
